@@ -18,7 +18,7 @@ pub fn judge(src: &str, class: &str, rc: &mut RCase) -> Result<(), Failure> {
         return Ok(());
     }
     let rendered = || json!({"class": class, "source": src});
-    let (out, _) = front::eval(src);
+    let (out, _) = front::eval_opts(src, true);
     let key = hash64(src);
     match out {
         Front::ParseErr { message, src: esrc, span } => {
